@@ -353,6 +353,9 @@ def extreme_cases(draw):
     sv["rv"] = [gens.rounded(float(x), 9) for x in v0_mu + g_.normal(0.0, 1.0, n)]
     sv["err"] = [gens.rounded(float(x), 9) for x in g_.uniform(2.0, 4.0, n)]
     sv.pop("err_unit", None)
+    # no extra jitter in the library rows: the kernel leaves it out of the variance (recorded defect F1), which turns
+    # configurations that are well conditioned on paper into ones it cannot evaluate stably
+    base["rows"] = [dict(r, s=0.0) for r in base["rows"]]
     side = draw(st.sampled_from(["underflow", "underflow", "overflow"]))
     return {"base": base, "side": side,
             "margin": gens.rounded(draw(gens.fl(0.5, 30.0)), 3),
@@ -415,8 +418,8 @@ def extreme_body_factory(ctx):
         g = math.exp(lg)
         A = scale_spec(base, g)
         Bsp = to_unit(A, case["unit"])
-        ib = int(np.argmax(ll0))
-        if max(og.tol_of(og.evaluate(og.Problem(base), base["rows"][ib])), og.tol_of(og.evaluate(og.Problem(A), A["rows"][ib]))) > 1e-3:
+        pb0, pbA = og.Problem(base), og.Problem(A)
+        if max(max(og.tol_of(og.evaluate(pb0, r0)), og.tol_of(og.evaluate(pbA, rA))) for r0, rA in zip(base["rows"], A["rows"])) > 1e-3:
             # cancellation in the kernel's route (visible in its float64 emulation): the values are dominated by round-off
             ctx.classes["extreme: numerically unstable configuration (skipped)"] += 1
             return
